@@ -182,6 +182,10 @@ func (o *Obligation) Query2() (string, []string, []*Term) {
 		ctr := 0
 		var sks []*Term
 		ng := negSkolemC(o.Goal, &ctr, &sks)
+		if o.Kind == "site" {
+			// only the coefficient obligations need to relate pow atoms with shifted exponents
+			as = append(as, powAxiomInstances(append(append([]*Term{}, as...), ng))...)
+		}
 		tI := time.Now()
 		insts, gens := instantiate(as, ng, sks, ex.lowPrio)
 		if os.Getenv("GOVC_DEBUG_TIME") != "" {
@@ -576,6 +580,31 @@ func (V *Verifier) SolveAll(obls []*Obligation) {
 		w2 = 1
 	}
 	run(w2, left, func(o *Obligation) { V.solveRendered(o, 2) })
+	// pass 3: the few obligations still undecided are retried one at a time on the quiet machine with
+	// three times the budget (slow queries are the ones that time out under load); capped, so that a
+	// tree on which many obligations genuinely fail is not held up
+	var undecided []*Obligation
+	for _, o := range left {
+		if o.Status == "unknown" && !o.Cover {
+			undecided = append(undecided, o)
+		}
+	}
+	if n := len(undecided); n > 0 && n <= 8 {
+		saved := V.opts.Timeout
+		V.opts.Timeout = saved * 3
+		for _, o := range undecided {
+			renderedMu.Lock()
+			r := renderedTab[o]
+			renderedMu.Unlock()
+			if r != nil {
+				h := sha1.Sum([]byte(r.text))
+				solveCache.Delete(fmt.Sprintf("%x", h[:]))
+			}
+			o.Time = 0
+			V.solveRendered(o, 2)
+		}
+		V.opts.Timeout = saved
+	}
 }
 
 type rendered struct {
@@ -750,11 +779,17 @@ func (V *Verifier) solveRendered(o *Obligation, pass int) {
 					o.Model = m2
 				}
 				// further genuine counterexamples with differently shaped real values (for the replay:
-				// uninterpreted functions such as trunc/floor make the first model's reals arbitrary)
-				for variant := 1; variant <= 4; variant++ {
-					if m2 := V.smallModel(file, r, variant); m2 != nil {
-						o.AltModels = append(o.AltModels, m2)
+				// uninterpreted functions such as trunc/floor make the first model's reals arbitrary);
+				// computed on demand by the replay
+				rr := r
+				o.AltModelFn = func() []map[string]string {
+					var out []map[string]string
+					for variant := 1; variant <= 4; variant++ {
+						if m2 := V.smallModel(file, rr, variant); m2 != nil {
+							out = append(out, m2)
+						}
 					}
+					return out
 				}
 			}
 		}
@@ -1463,6 +1498,9 @@ func mathAxiomInstances(as []*Term) []*Term {
 			if strings.HasPrefix(t.Op, "f:") && len(t.Args) == 1 {
 				atoms[t.Op[2:]] = append(atoms[t.Op[2:]], t)
 			}
+			if t.Op == "f:pow" && len(t.Args) == 2 {
+				atoms["pow"] = append(atoms["pow"], t)
+			}
 			for _, a := range t.Args {
 				walk(a)
 			}
@@ -1505,6 +1543,53 @@ func mathAxiomInstances(as []*Term) []*Term {
 		}
 		for _, q := range atoms["sqrt"] {
 			emit(Implies(Ge(q.Args[0], zero), And(Ge(q, zero), Eq(Mul(q, q), q.Args[0]))))
+		}
+		for _, t := range powAxiomInstances(append(append([]*Term{}, as...), out...)) {
+			emit(t)
+		}
+	}
+	return out
+}
+
+// powAxiomInstances: for a positive base, pow(b, e) > 0 and pow(b, e) = pow(b, e-1) * b (shift 1 or 2)
+// between the pow atoms with the same base that occur in the given terms. Ground, quantifier-free.
+func powAxiomInstances(as []*Term) []*Term {
+	var atoms []*Term
+	seen := map[*Term]bool{}
+	var walk func(t *Term)
+	walk = func(t *Term) {
+		if seen[t] {
+			return
+		}
+		seen[t] = true
+		if t.Op == "f:pow" && len(t.Args) == 2 {
+			atoms = append(atoms, t)
+		}
+		for _, a := range t.Args {
+			walk(a)
+		}
+	}
+	for _, a := range as {
+		walk(a)
+	}
+	var out []*Term
+	zero, one, two := RealOfInt(0), RealOfInt(1), RealOfInt(2)
+	for i, p1 := range atoms {
+		b := p1.Args[0]
+		out = append(out, Implies(Gt(b, zero), Gt(p1, zero)))
+		for j, p2 := range atoms {
+			if i == j {
+				continue
+			}
+			// bases and exponent shifts are compared semantically (the code's x is a getter result, the
+			// contract's val(a) a heap read; they are equal only modulo the getter's contract)
+			d := Sub(p1.Args[1], p2.Args[1])
+			if d.IsRealLit() && d.RatVal().Sign() <= 0 {
+				continue
+			}
+			same := Eq(b, p2.Args[0])
+			out = append(out, Implies(And(same, Gt(b, zero), Eq(d, one)), Eq(p1, Mul(p2, b))))
+			out = append(out, Implies(And(same, Gt(b, zero), Eq(d, two)), Eq(p1, Mul(Mul(p2, b), b))))
 		}
 	}
 	return out
